@@ -38,6 +38,12 @@ def calc_imp_times(assigns, lag_time, n_states, n_times, method,
 
     imp_times = -lag_time / np.log(e_vals[1:])
 
+    # a trimmed model can have fewer states than eigenvalues were asked for;
+    # report the timescales that do not exist as nan (rows of equal length)
+    n_missing = (n_times - 1) - len(imp_times)
+    if n_missing > 0:
+        imp_times = np.concatenate([imp_times, np.full(n_missing, np.nan)])
+
     return imp_times
 
 
